@@ -329,7 +329,16 @@ where
         let storage = self.storage;
         storage.log.load_object(r);
 
-        storage.resolve_ref(r, flags, self)
+        // the value of an indirect object may itself be a reference: follow it here, with a bound, so
+        // that readers which resolve a reference and look again never meet another reference
+        let mut r = r;
+        for _ in 0 .. 16 {
+            match storage.resolve_ref(r, flags, self)? {
+                Primitive::Reference(next) => r = next,
+                p => return Ok(p)
+            }
+        }
+        bail!("chain of references starting at object {} does not end", r.id)
     }
 
     fn get<T: Object+DataSize>(&self, r: Ref<T>) -> Result<RcRef<T>> {
